@@ -11,6 +11,7 @@ import sys
 import time
 
 ROOT = os.path.dirname(os.path.dirname(os.path.abspath(__file__)))
+REPO = os.environ.get("VERIF_REPO", "/repo")   # a snapshot of /repo when run in the background (vp run --with-repo)
 
 
 def sh(cmd, **kw):
@@ -26,11 +27,11 @@ def main():
     d = os.path.join(ROOT, args[0]) if not os.path.isabs(args[0]) else args[0]
     checks = args[1:]
     patch = os.path.join(d, "patch.diff")
-    st = sh("git -C /repo status --porcelain").stdout.strip()
+    st = sh("git -C " + REPO + " status --porcelain").stdout.strip()
     if st:
         print("refusing: /repo is not clean:\n" + st)
         return 2
-    r = sh("git -C /repo apply --check %s" % patch)
+    r = sh("git -C " + REPO + " apply --check %s" % patch)
     if r.returncode != 0:
         print("patch does not apply:", r.stderr)
         return 2
@@ -45,10 +46,10 @@ def main():
         except Exception:
             pass
     try:
-        sh("git -C /repo apply %s" % patch)
+        sh("git -C " + REPO + " apply %s" % patch)
         if "--suite" in sys.argv:
             t = time.time()
-            r = sh("cd /repo && cargo test --workspace --no-fail-fast --offline 2>&1 | grep -E '^test result'")
+            r = sh("cd " + REPO + " && cargo test --workspace --no-fail-fast --offline 2>&1 | grep -E '^test result'")
             out["suite"] = {"lines": r.stdout.strip().split("\n"), "wall_s": round(time.time() - t, 1)}
             print("suite:", out["suite"]["lines"])
         for c in checks:
@@ -65,12 +66,12 @@ def main():
                                                   "tail": "" if r.returncode in (0, 1) else (r.stdout + r.stderr)[-600:]}
             print("%s %s: exit %d, %d violation lines  %s" % (c, tier, r.returncode, len(viol), first[:160]))
     finally:
-        sh("git -C /repo checkout -- .")
-        sh("git -C /repo clean -fdq -- src tests test_scripts")
+        sh("git -C " + REPO + " checkout -- .")
+        sh("git -C " + REPO + " clean -fdq -- src tests test_scripts")
         # evidence and replays written against the mutated tree are not evidence about /repo
         sh("cd %s && git checkout -- evidence && git clean -fdq -- replays" % ROOT)
     json.dump(out, open(resfile, "w"), indent=1)
-    st = sh("git -C /repo status --porcelain").stdout.strip()
+    st = sh("git -C " + REPO + " status --porcelain").stdout.strip()
     if st:
         print("WARNING: /repo not clean after revert:\n" + st)
         return 2
